@@ -34,6 +34,10 @@ type DriverCfg struct {
 	Checksums  bool // supply (right and wrong) checksums
 	BigBodies  bool // multi-MiB bodies
 	BodySizes  []int
+	// RepeatPartBodies: parts of one multipart upload reuse the previous part's
+	// body half of the time (content dedup then stores one part id several
+	// times in one object).
+	RepeatPartBodies bool
 	// SharedNamespace: other drivers own other buckets of the same storage;
 	// ListBuckets is compared for this driver's buckets only.
 	SharedNamespace bool
@@ -73,6 +77,7 @@ type Driver struct {
 
 	real      map[string]string // bucket|key|modelVersion -> real version id
 	uploads   map[string]storage.UploadId
+	lastPartBody map[string][]byte
 	lastMod   map[string]time.Time // bucket|key|modelVersion|writeSeq -> first observed Last-Modified
 	wasLatest map[string]bool
 	opN       int
@@ -1169,6 +1174,15 @@ func (d *Driver) opMultipart(g *sim.Tape) *Violation {
 	case choice <= 4: // upload part
 		n := 1 + g.Int(4)
 		body := d.body(d.bodySize(g), g)
+		if d.Cfg.RepeatPartBodies {
+			if prev, ok := d.lastPartBody[b+"|"+mid]; ok && g.Chance(1, 2) {
+				body = prev
+			}
+			if d.lastPartBody == nil {
+				d.lastPartBody = map[string][]byte{}
+			}
+			d.lastPartBody[b+"|"+mid] = body
+		}
 		op := fmt.Sprintf("UploadPart(%s/%s,%s,#%d,%dB)", b, u.Key, mid, n, len(body))
 		d.log("%s", op)
 		res, err := d.St.UploadPart(d.ctx, bn(b), ok(u.Key), rid, int32(n), d.reader(body, g), nil)
